@@ -81,6 +81,15 @@ def run(ev, rep, rng, exe, model, quick):
                 rep.violation("the symbol table crashes in a direct session: " + tr.crashed[-300:], {"lines": c_lines(init, ops), "stderr": tr.stderr[-1500:]},
                               signature={"symptom": "crash", "where": "symtab", "cause": __import__("vlib.core", fromlist=["x"]).crash_cause(tr.stderr)})
                 break
+            # the hypothesis of theorem symtab_pool_write_fits on every real state: live strings fit below strsize <= strspace
+            for op, blk in tr[:-1]:
+                stl = proto.get(blk, "st")
+                if stl and len(stl) >= 7:
+                    used = sum(len(v[1]) // 2 + 1 if v[1] != "00" else 1 for k_, v in blk if k_ == "ent" and v[1] != "-")
+                    if not (used <= int(stl[4]) <= int(stl[5]) and int(stl[5]) > 0):
+                        rep.violation("string pool accounting of the symbol table broken: live strings need %d bytes, strsize %s, strspace %s" % (used, stl[4], stl[5]),
+                                      {"lines": c_lines(init, ops)}, signature={"symptom": "symtab-pool-accounting"})
+                        break
             got = [(key, list(vals)) for op, blk in tr[:-1] for key, vals in blk]
             want = [(key, list(vals)) for key, vals in (model.ans(k) or [])]
             if got != want:
